@@ -18,7 +18,7 @@ LEVEL = 'exploration'
 RULE = ('case = block of cells of the matrix (primary flags, subkey flags..., operation, enforcement, form); one evaluation per cell; non-trivial cell = at least '
         'two components or a refusal expected; distinct = distinct cell descriptors (digest)')
 ASSUMPTIONS = ['flag sets are read from the most recent self-signature of each component through public attributes', 'when several components qualify any of them may be used (the model only requires that the one used qualifies)']
-MIN_COUNTERS = {'quick': {'cells': 3000, 'refusals_expected_and_seen': 400, 'components_confirmed_cryptographically': 1200, 'form_cells': 150},
+MIN_COUNTERS = {'quick': {'cells': 3000, 'refusals_expected_and_seen': 350, 'components_confirmed_cryptographically': 1200, 'form_cells': 120},
                 'thorough': {'cells': 12000}}
 BUDGET = {'quick': (260, 800), 'thorough': (1800, 3600)}
 TECHNIQUE = 'runtime monitoring: exhaustive policy-matrix enumeration against a policy model; the component actually used is confirmed cryptographically by the reference'
